@@ -573,6 +573,9 @@ def is_exception(cls: 'Class') -> bool:
     kind L{DocumentableKind.EXCEPTION}.
     """
     for base in cls.mro(True, False):
+        if isinstance(base, str) and base.startswith('builtins.'):
+            # class E(builtins.ValueError)
+            base = base[len('builtins.'):]
         if base in _STD_LIB_EXCEPTIONS:
             return True
     return False
